@@ -703,8 +703,28 @@ def _pairing(evs, size_term=None):
 
 
 # ------------------------------------------------------------------------ S5
+def _commit_after(ctx, fn, callee, label, inst):
+    """on every path of fn the logical cursor (self.position) is stored only after the call of `self.<callee>` - the underlying
+    operation can refuse (BadAlign, SectorReadError) and must then leave the cursor where it was"""
+    ok, det, n = True, "", 0
+    for p in run_paths(ctx, fn, rule="S5"):
+        idx_call = [i for i, s_ in enumerate(p.steps) if s_.kind in ("stmt", "return") and s_.ast is not None and any(
+            isinstance(c, ast.Call) and dotted(c.func) == f"self.{callee}" for c in ast.walk(s_.ast))]
+        idx_store = [i for i, s_ in enumerate(p.steps) if s_.kind == "stmt" and isinstance(s_.ast, (ast.Assign, ast.AugAssign, ast.AnnAssign)) and any(
+            dotted(t) == "self.position" for t in (s_.ast.targets if isinstance(s_.ast, ast.Assign) else [s_.ast.target]))]
+        if not idx_call:
+            continue
+        n += 1
+        # stores on paths that re-sync first (read: `_seek(self.position)`) are judged against the LAST such call
+        if any(i < max(idx_call) for i in idx_store):
+            ok, det = False, f"self.position is stored before self.{callee}(...) has succeeded: a refused operation leaves the cursor moved"
+    ctx.ob("S5", fn, label, ok and n >= 1, det, inst=inst)
+
+
 def rule_S5(ctx):
     read = _method(ctx, STREAM, "StreamWrapper", "read", "S5")
+    _commit_after(ctx, _method(ctx, STREAM, "StreamWrapper", "seek", "S5"), "_seek", "seek moves the cursor only after the underlying seek was accepted", "seek-commit-order")
+    _commit_after(ctx, read, "_read", "read advances the cursor only after the underlying read returned", "read-commit-order")
     size = [a.arg for a in read.args.args][1]
     prs = [p for p in run_paths(ctx, read, rule="S5") if p.end == "return"]
     if not prs:
